@@ -2,12 +2,15 @@ CONSTANTS
  Keys = {"k1","k2"}
  ContentLen = 4
  Ranges <- R_big
+ RepStates = {"present","absent","failing","timeout","canceled","stalled"}
  MaxOps = 30
  DevNoFallback = FALSE
  DevFallbackDropsRange = FALSE
  DevIndexNoFallback = FALSE
  DevWriteToReplica = FALSE
  DevListFromReplica = FALSE
+ DevNoFallbackOnCtxErr = FALSE
+ DevReplicaTimeoutShadows = FALSE
 INIT Init
 NEXT Next
 INVARIANTS EmitSched C44_ReadMatchesPrimary C44_PrimaryOnly C44_ReachesPrimary
